@@ -308,6 +308,11 @@ def check_history(case, ctx: Ctx):
                         else:
                             m.exact = False
                 kinds.add("set_dtype")
+                if target.name == "int8":
+                    # int8 is not among the supported content types: only the acceptance rule is checked for it,
+                    # later sums may legitimately leave its range
+                    ctx.label("converted_to_int8")
+                    break
             else:
                 ctx.refused(what + f" -> {target} (lossy)", call)
                 after = snapshot(h)
